@@ -47,6 +47,11 @@ class OpsMixin:
         if "array_bytes" in c:
             et = t["of"]
             return VArr(len(c["array_bytes"]), tuple(self.const_int(et, x) for x in c["array_bytes"]))
+        if "static" in c:
+            cell = ("static", c["static"])
+            if cell not in st.cells:
+                st.cells[cell] = VUnknown(None, "static:" + c["static"])
+            return VRef(cell, (), False)
         if "promoted" in c:
             cell = ("prom", frame.key, c["promoted"])
             if cell not in st.cells:
